@@ -33,13 +33,17 @@ def gen_spec(prop, rng, tier):
         weights = [18, 34, 14, 8, 8, 10, 8]
         nruns = rng.choice([1, 2]) if tier == 'quick' else rng.choice([2, 3, 4])
     wl = gen.gen_workload(rng, weights=weights)
+    if tier == 'thorough' and rng.random() < 0.004:
+        wl = gen.gen_workload(rng, profile='large')
     if prop == 'C01' and rng.random() < 0.15 and len(wl['seqs']) >= 3:
         # zero-length input sequences: "one row per NON-EMPTY input sequence, in input order"
         for _ in range(rng.randint(1, 3)):
             k = rng.randrange(len(wl['seqs']) + 1)
             wl['seqs'].insert(k, ''); wl['names'].insert(k, 'empty%d_%d' % (k, rng.randrange(1000)))
         wl['names'] = ['%s.%d' % (n.split('.')[0][:18], i) for i, n in enumerate(wl['names'])]
-    big = wl['profile'] in ('kmeans', 'hirsch', 'medium')
+    big = wl['profile'] in ('kmeans', 'hirsch', 'medium', 'large')
+    if wl['profile'] == 'large':
+        nruns = min(nruns, 2)
     if prop == 'C01':
         entry = rng.choice(['A', 'LIB', 'LIB', 'CLI', 'CLI_STDOUT'])
         fmt = rng.choice(['fasta', 'msf', 'clu'])
@@ -56,7 +60,11 @@ def gen_spec(prop, rng, tier):
         v = rng.choices(['plain', 'preempt', 'asan'] if tier == 'thorough' else ['plain', 'preempt'], [5, 4, 2] if tier == 'thorough' else [5, 4])[0]
         if big and v == 'asan' and rng.random() < 0.5:
             v = 'plain'
+        if wl['profile'] == 'large':
+            v = 'plain'
         w = gen.gen_world(rng, preempt=(v == 'preempt'))
+        if wl['profile'] == 'large':
+            w['wall_limit'] = 120; w['p_hook_yield'] = min(w.get('p_hook_yield', 0), 2000)
         nt = gen.thread_count(rng)
         if w.get('max_active_levels', 1) > 1 and nt > 8:
             nt = rng.choice([2, 3, 4, 8])        # nested teams multiply: keep the product bounded
@@ -69,6 +77,8 @@ def plans_of(spec):
     wl = spec['wl']
     quiet = spec.get('quiet', 1)
     rw = dict(spec['ref_world']); rw['c10'] = 1
+    if wl['profile'] == 'large':
+        rw['wall_limit'] = 120
     p = plans.base_plan('ref', rw)
     ix = plans.add_entry(p, wl, spec['entry'], spec['fmt'], spec['ref_nthreads'], spec['repeat'], quiet)
     out.append(('ref', 'serial', p, ix))
